@@ -40,6 +40,12 @@ What each encoder does (fixed code):
 
 What each decoder does (fixed code): see `leaves`, `decodeNamed`, `phase1`, `phase2`.
 
+A declared **named** Go type (`type Mode uint32`, a named slice / map / array / struct) encodes and decodes like its
+underlying type: every encoder and decoder switches on `reflect.Kind`; a builtin type takes the encoder's type
+assertion (`source.(uint32)`), a named type its reflect fallback (`reflect.ValueOf(source).Uint()`), with the same
+result. `GoType` therefore has no constructor for them: the harness uses a fixed family of declared named types (one per
+scalar kind and width, plus composites) and writes them `named T`, which the driver reads as `T`.
+
 Types outside this universe (channels, funcs, custom marshalers other than the three above, `io.Reader`
 buffers, error values, non-string map keys, `*time.Time` – which takes the RFC 3339 text form) are not modelled.
 Conversions the round trip never uses are modelled only by their *guard* (which source kinds a leaf takes):
